@@ -1,54 +1,435 @@
+mod engine;
+mod gen;
 mod hooks;
+mod props;
+mod scenario;
 mod sched;
 mod sim;
 mod util;
 
-use rfsm_verif_seams::{driver, rec};
-use rufsm::fsm::Event;
-use rufsm::fsm_executor::FsmExecutor;
+use engine::*;
+use serde_json::{json, Value};
+use std::collections::{BTreeMap, BTreeSet};
+use std::sync::Arc;
+use std::time::Instant;
 
-const DOC: &str = r#"<scxml xmlns="http://www.w3.org/2005/07/scxml" version="1.0" datamodel="rfsm-expression" name="smoke" initial="a">
-  <datamodel><data id="n" expr="0"/></datamodel>
-  <state id="a">
-    <onentry><script>mark('enter a')</script></onentry>
-    <transition event="go" target="b"><assign location="n" expr="n + 1"/><script>mark('t', n, _event.name)</script></transition>
-  </state>
-  <state id="b">
-    <onentry><send event="tick" delay="2s"/></onentry>
-    <transition event="tick" target="c"/>
-    <transition event="go" target="a"/>
-  </state>
-  <final id="c"/>
-</scxml>"#;
+fn verif_dir() -> String {
+    std::env::var("VERIF_DIR").unwrap_or_else(|_| "/verif".to_string())
+}
 
-fn main() {
-    let r = sim::run_one(
-        || {
-            driver::init();
-            rufsm::fsm::verif_reset_counters();
-            rufsm::tracer::set_tracer_factory(Box::new(hooks::RecordingTracerFactory));
-            let executor = FsmExecutor::new_without_io_processor();
-            let fsm = rufsm::scxml_reader::parse_from_xml(DOC.to_string()).unwrap();
-            let session = rufsm::fsm::start_fsm_with_data_and_finish_mode(fsm, hooks::new_actions(), Box::new(executor.clone()), &[], rufsm::fsm::FinishMode::KEEP_CONFIGURATION);
-            driver::wait_quiescent();
-            session.sender.send(Box::new(Event::new_simple("go"))).unwrap();
-            driver::wait_quiescent();
-            if let Some(d) = rec::with(|r| r.next_due()) {
-                rfsm_verif_seams::timer::advance_to(d);
-            }
-            driver::wait_quiescent();
-            let mut session = session;
-            session.thread.take().unwrap().join().unwrap();
-            let fc = session.global_data.lock().unwrap().final_configuration.clone();
-            rec::push(rec::RecKind::Driver { what: format!("final {:?}", fc) });
-            let sg = rec::with(|r| std::mem::take(&mut r.session_global));
-            drop(sg);
-        },
-        sim::RunCfg { kind: sched::SchedKind::Random, sched_seed: 1, hash_seed: 1, max_steps: 100000, record_log: true, stack_size: 1 << 20 },
-    );
-    println!("outcome {:?}", r.outcome);
-    println!("sched: {} choices, {} decisions", r.sched.choices.len(), r.sched.decisions);
-    for x in &r.rec.log {
-        println!("{:4} t{} s{} @{} {:?}", x.seq, x.task, x.session, x.time, x.kind);
+fn env_seed() -> u64 {
+    std::env::var("VERIF_SEED").ok().and_then(|s| s.trim().parse::<u64>().ok()).unwrap_or(DEFAULT_SEED)
+}
+
+fn parse_tier(s: &str) -> Tier {
+    match s {
+        "thorough" => Tier::Thorough,
+        _ => Tier::Quick,
     }
 }
+
+fn arg_val(args: &[String], key: &str) -> Option<String> {
+    args.iter().position(|a| a == key).and_then(|i| args.get(i + 1).cloned())
+}
+
+fn main() {
+    let args: Vec<String> = std::env::args().collect();
+    if args.len() < 2 {
+        eprintln!("usage: rfsm-sim check <ID> <quick|thorough> | worker ... | replay <file> | selftest-determinism <ID> | show <ID> <index> [sched]");
+        std::process::exit(2);
+    }
+    let code = match args[1].as_str() {
+        "check" => cmd_check(&args),
+        "worker" => cmd_worker(&args),
+        "replay" => cmd_replay(&args),
+        "selftest-determinism" => cmd_determinism(&args),
+        "digest" => cmd_digest(&args),
+        "show" => cmd_show(&args),
+        _ => {
+            eprintln!("unknown command {}", args[1]);
+            2
+        }
+    };
+    std::process::exit(code);
+}
+
+fn cmd_worker(args: &[String]) -> i32 {
+    let id = &args[2];
+    let prop = match props::by_id(id) {
+        Some(p) => p,
+        None => return 2,
+    };
+    let tier = parse_tier(&arg_val(args, "--tier").unwrap_or_default());
+    let wa = WorkerArgs {
+        verif_seed: arg_val(args, "--seed").and_then(|s| s.parse().ok()).unwrap_or(DEFAULT_SEED),
+        tier,
+        worker: arg_val(args, "--worker").and_then(|s| s.parse().ok()).unwrap_or(0),
+        workers: arg_val(args, "--workers").and_then(|s| s.parse().ok()).unwrap_or(1),
+        replay_dir: format!("{}/replays", verif_dir()),
+        known_path: format!("{}/known-findings.json", verif_dir()),
+        max_violations: 3,
+        workloads_override: arg_val(args, "--workloads").and_then(|s| s.parse().ok()),
+    };
+    let st = worker_loop(prop, &wa);
+    let out = arg_val(args, "--out").unwrap_or_else(|| "/dev/stdout".into());
+    std::fs::write(&out, serde_json::to_string(&stats_to_json(&st)).unwrap()).expect("write worker output");
+    0
+}
+
+fn merge_count(dst: &mut BTreeMap<String, u64>, v: &Value) {
+    if let Some(o) = v.as_object() {
+        for (k, x) in o {
+            *dst.entry(k.clone()).or_insert(0) += x.as_u64().unwrap_or(0);
+        }
+    }
+}
+
+fn cmd_check(args: &[String]) -> i32 {
+    let id = args.get(2).cloned().unwrap_or_default();
+    let prop = match props::by_id(&id) {
+        Some(p) => p,
+        None => {
+            eprintln!("unknown property {}", id);
+            return 2;
+        }
+    };
+    let tier = parse_tier(std::env::var("VERIF_TIER").ok().as_deref().or(args.get(3).map(|s| s.as_str())).unwrap_or("quick"));
+    let tier = if let Some(t) = args.get(3) { parse_tier(t) } else { tier };
+    let seed = env_seed();
+    let workers: u64 = arg_val(args, "--workers").and_then(|s| s.parse().ok()).unwrap_or_else(|| std::thread::available_parallelism().map(|n| n.get() as u64).unwrap_or(8).min(16));
+    let workloads_override = arg_val(args, "--workloads");
+    let t0 = Instant::now();
+    println!("# check {} tier={} VERIF_SEED={} workers={}", id, tier.name(), seed, workers);
+    let exe = std::env::current_exe().unwrap();
+    let tmp = std::env::temp_dir().join(format!("rfsm-sim-{}-{}", id, std::process::id()));
+    let _ = std::fs::create_dir_all(&tmp);
+    let mut children = Vec::new();
+    for w in 0..workers {
+        let out = tmp.join(format!("w{}.json", w));
+        let mut c = std::process::Command::new(&exe);
+        c.arg("worker").arg(&id).arg("--tier").arg(tier.name()).arg("--seed").arg(seed.to_string()).arg("--worker").arg(w.to_string()).arg("--workers").arg(workers.to_string()).arg("--out").arg(&out);
+        if let Some(n) = &workloads_override {
+            c.arg("--workloads").arg(n);
+        }
+        c.env_remove("SHUTTLE_RANDOM_SEED");
+        c.stderr(std::process::Stdio::from(std::fs::File::create(tmp.join(format!("w{}.err", w))).unwrap()));
+        children.push((w, out, c.spawn().expect("spawn worker")));
+    }
+    let mut agg: BTreeMap<&str, u64> = BTreeMap::new();
+    let mut maps: BTreeMap<&str, BTreeMap<String, u64>> = BTreeMap::new();
+    let mut nontrivial: BTreeSet<u64> = BTreeSet::new();
+    let mut all_sigs: BTreeSet<u64> = BTreeSet::new();
+    let mut violations: Vec<(Violation, String)> = Vec::new();
+    let mut samples: Vec<Value> = Vec::new();
+    let mut harness_errors: Vec<String> = Vec::new();
+    let mut steps_max = 0u64;
+    for (w, out, mut ch) in children {
+        let status = ch.wait().expect("wait worker");
+        if !status.success() {
+            let err = std::fs::read_to_string(tmp.join(format!("w{}.err", w))).unwrap_or_default();
+            harness_errors.push(format!("worker {} exited with {:?}: {}", w, status.code(), err.lines().rev().take(5).collect::<Vec<_>>().join(" / ")));
+            continue;
+        }
+        let v: Value = match std::fs::read_to_string(&out).ok().and_then(|s| serde_json::from_str(&s).ok()) {
+            Some(v) => v,
+            None => {
+                harness_errors.push(format!("worker {} wrote no result", w));
+                continue;
+            }
+        };
+        for k in ["workloads", "runs", "completed", "discarded", "evaluations", "sched_points", "context_switches", "sim_time_ms"] {
+            *agg.entry(k).or_insert(0) += v[k].as_u64().unwrap_or(0);
+        }
+        steps_max = steps_max.max(v["steps_max"].as_u64().unwrap_or(0));
+        for k in ["discarded_reasons", "sched_mix", "probes", "fault_kinds", "lock_edges", "other_rules", "known", "outcomes"] {
+            merge_count(maps.entry(k).or_default(), &v[k]);
+        }
+        for s in v["nontrivial_sigs"].as_array().cloned().unwrap_or_default() {
+            nontrivial.insert(s.as_u64().unwrap_or(0));
+        }
+        for s in v["all_sigs"].as_array().cloned().unwrap_or_default() {
+            all_sigs.insert(s.as_u64().unwrap_or(0));
+        }
+        for x in v["violations"].as_array().cloned().unwrap_or_default() {
+            if let Ok(vi) = serde_json::from_value::<Violation>(x["v"].clone()) {
+                violations.push((vi, x["path"].as_str().unwrap_or("").to_string()));
+            }
+        }
+        if samples.len() < 3 {
+            for s in v["samples"].as_array().cloned().unwrap_or_default() {
+                if samples.len() < 3 {
+                    samples.push(s);
+                }
+            }
+        }
+        for h in v["harness_errors"].as_array().cloned().unwrap_or_default() {
+            harness_errors.push(h.as_str().unwrap_or("").to_string());
+        }
+    }
+    let _ = std::fs::remove_dir_all(&tmp);
+    let wall = t0.elapsed().as_secs_f64();
+
+    // probes that must have been reached
+    let probes = maps.get("probes").cloned().unwrap_or_default();
+    let mut missing: Vec<String> = Vec::new();
+    for p in prop.required_probes() {
+        if probes.get(p).copied().unwrap_or(0) == 0 {
+            missing.push(p.to_string());
+        }
+    }
+    let runs = *agg.get("runs").unwrap_or(&0);
+    let discarded = *agg.get("discarded").unwrap_or(&0);
+
+    // dedupe violations by (rule, signature)
+    let mut seen: BTreeSet<(String, String)> = BTreeSet::new();
+    violations.retain(|(v, _)| seen.insert((v.rule.clone(), v.signature.clone())));
+
+    let known = maps.get("known").cloned().unwrap_or_default();
+    for (k, n) in &known {
+        println!("KNOWN-FINDING: {} (seen {} times)", k, n);
+    }
+    for (v, path) in &violations {
+        println!("VIOLATION property={} replay={}", v.property, path);
+        println!("  rule={} signature={} :: {}", v.rule, v.signature, v.msg);
+    }
+
+    let evidence = json!({
+        "property_id": id,
+        "tier": tier.name(),
+        "seed": seed,
+        "level": prop.level(),
+        "coverage": {
+            "evaluations": *agg.get("evaluations").unwrap_or(&0),
+            "distinct_nontrivial": nontrivial.len(),
+            "rule": prop.nontrivial_rule(),
+            "samples": samples,
+            "workloads_generated": *agg.get("workloads").unwrap_or(&0),
+            "simulated_runs": runs,
+            "runs_completed_and_judged": *agg.get("completed").unwrap_or(&0),
+            "runs_discarded": discarded,
+            "discarded_reasons": maps.get("discarded_reasons"),
+            "run_outcomes": maps.get("outcomes"),
+            "runs_per_hour": if wall > 0.0 { (runs as f64 / wall * 3600.0) as u64 } else { 0 },
+            "simulated_time_ms_covered": *agg.get("sim_time_ms").unwrap_or(&0),
+            "scheduler_mix": maps.get("sched_mix"),
+            "scheduling_decisions": *agg.get("sched_points").unwrap_or(&0),
+            "context_switches": *agg.get("context_switches").unwrap_or(&0),
+            "max_steps_in_a_run": steps_max,
+            "distinct_interleavings": all_sigs.len(),
+            "interleaving_measure": "distinct (scenario hash, hash of the task chosen at every context switch) pairs",
+            "fault_kinds_fired": maps.get("fault_kinds"),
+            "probes": probes,
+            "lock_order_edges_observed": maps.get("lock_edges"),
+            "other_rules_seen": maps.get("other_rules"),
+            "known_findings_seen": known,
+            "real_code": ["scxml_reader", "fsm (interpreter)", "executable_content", "datamodel (null, rfsm-expression incl. expression_engine, ecmascript/boa)", "ScxmlEventIOProcessor", "FsmExecutor", "serializer reader/writer"],
+            "stubs": ["OS scheduler + std::sync + std::thread -> shuttle (SeqCst)", "timer crate -> simulated timer wheel on a simulated clock", "OS randomness for HashMap keys -> seeded getrandom shim"],
+            "exhaustive": false
+        },
+        "assumptions": prop.assumptions(),
+        "wall_s": wall,
+        "violations": violations.len(),
+        "harness_errors": harness_errors,
+        "missing_required_probes": missing,
+    });
+    let epath = format!("{}/evidence/{}.json", verif_dir(), id);
+    let _ = std::fs::create_dir_all(format!("{}/evidence", verif_dir()));
+    std::fs::write(&epath, serde_json::to_string_pretty(&evidence).unwrap()).expect("write evidence");
+    println!(
+        "# {} runs ({} judged, {} discarded), {} oracle evaluations, {} distinct non-trivial, {:.1}s wall, evidence {}",
+        runs,
+        agg.get("completed").unwrap_or(&0),
+        discarded,
+        agg.get("evaluations").unwrap_or(&0),
+        nontrivial.len(),
+        wall,
+        epath
+    );
+    if !violations.is_empty() {
+        return 1;
+    }
+    if !harness_errors.is_empty() {
+        for h in &harness_errors {
+            println!("HARNESS-ERROR: {}", h);
+        }
+        return 2;
+    }
+    if !missing.is_empty() {
+        println!("HARNESS-ERROR: workload did not reach required conditions: {:?}", missing);
+        return 2;
+    }
+    if runs > 0 && discarded * 5 > runs {
+        println!("HARNESS-ERROR: too many discarded runs ({} of {})", discarded, runs);
+        return 2;
+    }
+    0
+}
+
+fn cmd_replay(args: &[String]) -> i32 {
+    let path = match args.get(2) {
+        Some(p) => p,
+        None => return 2,
+    };
+    let txt = match std::fs::read_to_string(path) {
+        Ok(t) => t,
+        Err(e) => {
+            eprintln!("cannot read {}: {}", path, e);
+            return 2;
+        }
+    };
+    let rf: ReplayFile = match serde_json::from_str(&txt) {
+        Ok(r) => r,
+        Err(e) => {
+            eprintln!("cannot parse {}: {}", path, e);
+            return 2;
+        }
+    };
+    let prop_id = rf.rule.split('.').next().unwrap_or(&rf.property).to_string();
+    let prop = match props::by_id(&rf.property).or_else(|| props::by_id(&prop_id)) {
+        Some(p) => p,
+        None => return 2,
+    };
+    let sc = Arc::new(rf.scenario.clone());
+    let kind = sched::SchedKind::Replay { choices: rf.choices.clone(), randoms: rf.randoms.clone() };
+    let mut probes = Probes::default();
+    let jd = judge(prop, &sc, kind, 0, rf.hash_seed, &mut probes);
+    if let sim::Outcome::ReplayDiverged(d) = &jd.exec.outcome {
+        println!("REPLAY-DIVERGED: {}", d);
+        return 2;
+    }
+    let digest = format!("{:016x}", history_digest(&jd.exec.rec.log));
+    let same = jd.verdict.violations.iter().find(|v| v.rule == rf.rule);
+    match same {
+        Some(v) => {
+            println!("VIOLATION property={} replay={}", v.property, path);
+            println!("  rule={} signature={} :: {}", v.rule, v.signature, v.msg);
+            if digest != rf.history_digest {
+                println!("REPLAY-DIVERGED: history digest {} != recorded {}", digest, rf.history_digest);
+                return 2;
+            }
+            println!("  history digest {} reproduced exactly ({} scheduling choices)", digest, rf.choices.len());
+            1
+        }
+        None => {
+            println!("replay of {} did not reproduce rule {} (digest {} vs {}); violations now: {:?}", path, rf.rule, digest, rf.history_digest, jd.verdict.violations);
+            if digest != rf.history_digest {
+                // the code under test changed (e.g. the defect was repaired): not a harness error
+                0
+            } else {
+                2
+            }
+        }
+    }
+}
+
+/// prints one line per (workload, schedule): digest of the full history. Used by the determinism self-test.
+fn cmd_digest(args: &[String]) -> i32 {
+    let id = &args[2];
+    let prop = match props::by_id(id) {
+        Some(p) => p,
+        None => return 2,
+    };
+    let from: u64 = arg_val(args, "--from").and_then(|s| s.parse().ok()).unwrap_or(0);
+    let to: u64 = arg_val(args, "--to").and_then(|s| s.parse().ok()).unwrap_or(100);
+    let stride: u64 = arg_val(args, "--stride").and_then(|s| s.parse().ok()).unwrap_or(1);
+    let seed = env_seed();
+    let tier = Tier::Quick;
+    let mut idx = from;
+    while idx < to {
+        let wseed = workload_seed(seed, prop.id(), idx);
+        let mut rng = util::Rng::new(wseed);
+        let sc = Arc::new(prop.generate(&mut rng.fork(), tier, idx));
+        let mut est = 64usize;
+        for j in 0..prop.schedules_per_workload(tier) {
+            let mut srng = util::Rng::new(util::mix2(wseed, 0x5c4ed + j as u64));
+            let kind = prop.sched_kind(&mut srng, j, est);
+            let sseed = srng.next();
+            let hseed = util::mix2(wseed, 0x4a54 + j as u64);
+            let ex = execute(&sc, kind, sseed, hseed, prop.max_steps());
+            est = est.max(ex.sched.decisions);
+            println!("{} {} {:016x} {:?}", idx, j, history_digest(&ex.rec.log), std::mem::discriminant(&ex.outcome));
+        }
+        idx += stride;
+    }
+    0
+}
+
+fn cmd_determinism(args: &[String]) -> i32 {
+    // run `digest` twice in separate processes, once as 1 process and once split over k processes; compare
+    let id = args.get(2).cloned().unwrap_or_default();
+    let n: u64 = arg_val(args, "--n").and_then(|s| s.parse().ok()).unwrap_or(400);
+    let exe = std::env::current_exe().unwrap();
+    let run = |from: u64, to: u64, stride: u64| -> String {
+        let o = std::process::Command::new(&exe)
+            .args(["digest", &id, "--from", &from.to_string(), "--to", &to.to_string(), "--stride", &stride.to_string()])
+            .stderr(std::process::Stdio::null())
+            .output()
+            .expect("run digest");
+        String::from_utf8_lossy(&o.stdout).to_string()
+    };
+    let t0 = Instant::now();
+    let single = run(0, n, 1);
+    let mut a: Vec<String> = single.lines().map(|s| s.to_string()).collect();
+    a.sort();
+    let k = 8u64;
+    let handles: Vec<std::thread::JoinHandle<String>> = (0..k)
+        .map(|w| {
+            let exe = exe.clone();
+            let id = id.clone();
+            std::thread::spawn(move || {
+                let o = std::process::Command::new(&exe)
+                    .args(["digest", &id, "--from", &w.to_string(), "--to", &n.to_string(), "--stride", &k.to_string()])
+                    .stderr(std::process::Stdio::null())
+                    .output()
+                    .expect("run digest");
+                String::from_utf8_lossy(&o.stdout).to_string()
+            })
+        })
+        .collect();
+    let mut b: Vec<String> = Vec::new();
+    for h in handles {
+        b.extend(h.join().unwrap().lines().map(|s| s.to_string()));
+    }
+    b.sort();
+    let diffs = a.iter().zip(b.iter()).filter(|(x, y)| x != y).count() + (a.len() as i64 - b.len() as i64).unsigned_abs() as usize;
+    println!("determinism self-test {}: {} (workload,schedule) histories, 1-process vs {}-process batches, {} differences, {:.1}s", id, a.len(), k, diffs, t0.elapsed().as_secs_f64());
+    if diffs > 0 {
+        for (x, y) in a.iter().zip(b.iter()).filter(|(x, y)| x != y).take(5) {
+            println!("  {} | {}", x, y);
+        }
+        return 2;
+    }
+    0
+}
+
+fn cmd_show(args: &[String]) -> i32 {
+    let id = &args[2];
+    let prop = match props::by_id(id) {
+        Some(p) => p,
+        None => return 2,
+    };
+    let idx: u64 = args.get(3).and_then(|s| s.parse().ok()).unwrap_or(0);
+    let j: usize = args.get(4).and_then(|s| s.parse().ok()).unwrap_or(0);
+    let seed = env_seed();
+    let wseed = workload_seed(seed, prop.id(), idx);
+    let mut rng = util::Rng::new(wseed);
+    let sc = Arc::new(prop.generate(&mut rng.fork(), Tier::Quick, idx));
+    for d in &sc.docs {
+        println!("--- doc {}\n{}", d.name, d.xml);
+    }
+    println!("script: {:?}\nproducers: {:?}\nnotes: {:?}", sc.script, sc.producers, sc.notes);
+    let mut srng = util::Rng::new(util::mix2(wseed, 0x5c4ed + j as u64));
+    let kind = prop.sched_kind(&mut srng, j, 64);
+    let sseed = srng.next();
+    let hseed = util::mix2(wseed, 0x4a54 + j as u64);
+    let mut probes = Probes::default();
+    let jd = judge(prop, &sc, kind, sseed, hseed, &mut probes);
+    for x in &jd.exec.rec.log {
+        println!("{:5} t{} s{} @{} {:?}", x.seq, x.task, x.session, x.time, x.kind);
+    }
+    println!("outcome {:?}", jd.exec.outcome);
+    println!("violations {:?}", jd.verdict.violations);
+    println!("discarded {:?} nontrivial {} probes {:?}", jd.verdict.discarded, jd.verdict.nontrivial, probes.counts);
+    0
+}
+
